@@ -101,6 +101,21 @@ pub fn programs(tier: Tier) -> ProgramSet {
             }
         }
     }
+    // struct-variant fields named like the parameters and locals a generated fn might use (seed C02-u: the formatter
+    // parameter renamed to `f`); no placeholder is involved, the field merely has to stay out of the generated code's way
+    for names in [["f", "s"], ["fmt", "formatter"], ["value", "other"], ["e", "v"]] {
+        for style in [None, Some("kebab-case")] {
+            let mut spec = EnumSpec::base(3);
+            spec.serialize_all = style.map(|s| s.to_string());
+            spec.variants[1].kind = Kind::Named(vec![NamedField { name: names[0].into(), ty: FieldTy::U8, default_with: false }, NamedField { name: names[1].into(), ty: FieldTy::Str, default_with: false }]);
+            spec.variants[2].kind = Kind::Named(vec![NamedField { name: names[1].into(), ty: FieldTy::U8, default_with: false }]);
+            spec.variants[2].to_string = Some("shown".into());
+            if domain(&spec) && seen.insert(spec.clone()) {
+                let source = render(&spec);
+                out.push(Program { idx: 0, label: format!("B3 + v1.kind=named{{{}, {}}} + v2.kind=named{{{}}} + v2.to_string=shown{}", names[0], names[1], names[1], if style.is_some() { " + serialize_all=kebab-case" } else { "" }), k: 2, spec, aux: json!(null), source });
+            }
+        }
+    }
     for (spec, label) in scale_specs() {
         if domain(&spec) && seen.insert(spec.clone()) {
             let source = render(&spec);
